@@ -342,6 +342,43 @@ def generate(lib_rs):
               ("let", ("pbind", "topics"),
                ("array", [("mcall", ("call", ("path", ["TopicFilter", "new"]), [("unary", "&", ("path", ["settings"]))]), "options", [("path", ["opts"])])]))],
              ("mcall", CLIENT, "subscribe", [("unary", "&", ("path", ["topics"])), ("unary", "&", ("array", []))])))
+    # ---- Multipart::{default, root, try_from}: what the environment functions `dflt` / `root` / `mpTry` of the translation stand
+    # for (skeleton-checked: the walk starts at the tree root with no response topic / correlation data; `root` re-roots the
+    # iterator and changes nothing else; `try_from` caches the response topic first ("Response topic too long"), then the
+    # correlation data ("Correlation data too long"), and starts a fresh walk)
+    same_fn("default", "fn default() -> Self",
+            ("block", [], ("struct", ["Self"], [("iter", ("call", ("path", ["M", "nodes"]), [])), ("response_topic", ("path", ["None"])),
+                                                 ("correlation_data", ("path", ["None"]))])))
+    same_fn("root", "fn root<K: IntoKeys>(mut self, keys: K) -> Result<Self, miniconf::Traversal>",
+            ("block",
+             [("semi", ("assign", "=", ("field", ("path", ["self"]), "iter"),
+                        ("try", ("mcall", ("field", ("path", ["self"]), "iter"), "root", [("path", ["keys"])]))))],
+             ("call", ("path", ["Ok"]), [("path", ["self"])])))
+    same_fn("try_from", "fn try_from(value: &minimq::types::Properties<'_>) -> Result<Self, Self::Error>",
+            ("block",
+             [("let", ("pbind", "response_topic"),
+               ("try", ("mcall", ("mcall", ("mcall", ("mcall", ("mcall", ("path", ["value"]), "into_iter", []), "response_topic", []),
+                                            "map", [("path", ["TryInto", "try_into"])]), "transpose", []),
+                        "or", [("call", ("path", ["Err"]), [("str", "Response topic too long")])]))),
+              ("let", ("pbind", "correlation_data"),
+               ("try", ("mcall", ("mcall", ("mcall", ("mcall", ("path", ["value"]), "into_iter", []), "find_map",
+                                            [("closure", [("pbind", "prop")],
+                                              ("block", [],
+                                               ("if", ("iflet", [("ppath", ["Ok"], [("ppath", ["minimq", "Property", "CorrelationData"], [("pbind", "cd")])])],
+                                                       ("path", ["prop"])),
+                                                ("block", [], ("call", ("path", ["Some"]), [("call", ("path", ["Vec", "try_from"]), [("field", ("path", ["cd"]), "0")])])),
+                                                ("block", [], ("path", ["None"])))))]),
+                                  "transpose", []),
+                        "or", [("call", ("path", ["Err"]), [("str", "Correlation data too long")])])))],
+             ("call", ("path", ["Ok"]),
+              [("struct", ["Self"], [("iter", ("call", ("path", ["M", "nodes"]), [])), ("response_topic", ("path", ["response_topic"])),
+                                     ("correlation_data", ("path", ["correlation_data"]))])])))
+    # the capacities the two `try_into` / `try_from` conversions fail beyond
+    for name_, val_ in (("MAX_TOPIC_LENGTH", "128"), ("MAX_CD_LENGTH", "32")):
+        if not re.search(r"const\s+" + name_ + r"\s*:\s*usize\s*=\s*" + val_ + r"\s*;", src):
+            raise Unsupported(f"{name_} is no longer {val_}")
+    if not re.search(r"response_topic:\s*Option<String<MAX_TOPIC_LENGTH>>,\s*correlation_data:\s*Option<Vec<u8,\s*MAX_CD_LENGTH>>,", src):
+        raise Unsupported("struct Multipart: the cached response topic / correlation data no longer have the capacities MAX_TOPIC_LENGTH / MAX_CD_LENGTH")
     # ---- dump(path): the API entry into a dump
     sig, text = M.find_fn(src, "dump")
     if re.sub(r"\s+", " ", sig) != "fn dump(&mut self, path: Option<&str>) -> Result<(), Error<Stack::Error>>":
